@@ -16,6 +16,7 @@ import SarpyModel.Drivers.XmlFmt
 import SarpyModel.Drivers.Checker
 import SarpyModel.Drivers.Ortho
 import SarpyModel.Drivers.Chip
+import SarpyModel.Drivers.Supported
 namespace Sarpy.Drivers
 
 def step (line : String) : String :=
@@ -39,6 +40,7 @@ def step (line : String) : String :=
   | "checker" :: rest => (checkerStep rest).getD "bad-op"
   | "ortho" :: rest => (orthoStep rest).getD "bad-op"
   | "chip" :: rest => (chipStep rest).getD "bad-op"
+  | "supported" :: rest => (supportedStep rest).getD "bad-op"
   | _ => "bad-op"
 
 partial def loop (h : IO.FS.Stream) : IO Unit := do
